@@ -2,7 +2,7 @@
    integer-token lines) -> output lines.  The Rust harness implements the same interface
    on top of the real crate. *)
 From Coq Require Import ZArith List.
-From KD Require Import Model.Values Model.Compare Model.Validate Model.Perm Model.Glob Model.Broker Model.BrokerRun Model.Conc.
+From KD Require Import Model.Values Model.Compare Model.Validate Model.Perm Model.Glob Model.Broker Model.BrokerRun Model.Api Model.ApiRun Model.Wire Model.Conc.
 Open Scope Z_scope.
 
 Definition fam_cmp : Z := 13.
@@ -11,12 +11,14 @@ Definition fam_scope : Z := 5.
 Definition fam_glob : Z := 14.
 Definition fam_hist : Z := 1.
 Definition fam_trace : Z := 11.
+Definition fam_wire : Z := 15.
 
 Definition run (fam : Z) (case : list (list Z)) : list (list Z) :=
   if fam =? fam_cmp then map run_cmp_line case
   else if fam =? fam_validate then map run_validate_line case
   else if fam =? fam_scope then map run_scope_line case
   else if fam =? fam_glob then run_glob_case case
-  else if fam =? fam_hist then run_hist_case case
+  else if fam =? fam_hist then run_api_case case
   else if fam =? fam_trace then map run_trace_line case
+  else if fam =? fam_wire then map run_wire_line case
   else [[-99]].
